@@ -275,6 +275,7 @@ class Check:
         The generated files Require the compiled model, so the definitions evaluated here are the ones the
         theorems are about.  Only the list of mismatching indices is printed by Coq.
         """
+        self._ensure_imports(imports)
         files = []
         for k in range(0, len(cases), shard):
             f = self.case_dir / f"cases_{name}_{k // shard}.v"
@@ -311,8 +312,23 @@ class Check:
         self.coq_time += time.time() - t0
         return sorted(bad), errors
 
+    def _ensure_imports(self, imports):
+        """(Re)build the compiled model files a generated file imports, so they reflect the current .v sources."""
+        mods = []
+        for m in re.finditer(r"From BlackIt Require (?:Import|Export) ([^.]*(?:\.[A-Za-z0-9_]+)*)\.", imports):
+            mods += m.group(1).split()
+        targets = [x.replace(".", "/") + ".vo" for x in mods]
+        key = tuple(targets)
+        if targets and key not in getattr(self, "_made", set()):
+            rc, log, dt = make_targets(targets)
+            self.coq_time += dt
+            self._made = getattr(self, "_made", set()) | {key}
+            if rc != 0:
+                self.broken_proof("make-model", log[-600:])
+
     def coq_eval(self, name, imports, exprs, timeout=600, preamble=""):
         """Evaluate arbitrary closed terms with vm_compute and return Coq's printed values (for replays)."""
+        self._ensure_imports(imports)
         f = self.case_dir / f"eval_{name}.v"
         lines = [imports, "Import ListNotations.", preamble]
         for i, e in enumerate(exprs):
